@@ -112,6 +112,26 @@ func c04Coll(kind string, n int) (coll any, present bool, itemPath string, items
 			items = append(items, fmt.Sprintf("n%d", i))
 		}
 		coll, itemPath = s, ".Name"
+	case "ptrslice": // a pointer to a slice (what a field of type *[]T holds)
+		s := []string{}
+		for i := 0; i < n; i++ {
+			s = append(s, fmt.Sprintf("q%d", i))
+			items = append(items, fmt.Sprintf("q%d", i))
+		}
+		coll = &s
+	case "ptrarray":
+		if n != 2 {
+			return nil, false, "", nil
+		}
+		coll, items = &[2]int{7, 8}, []string{"7", "8"}
+	case "structsWhole":
+		// the item itself is printed: a struct value, not something that stands for it (a pointer)
+		s := []c04Item{}
+		for i := 0; i < n; i++ {
+			s = append(s, c04Item{Name: fmt.Sprintf("n%d", i), K: i})
+			items = append(items, fmt.Sprint(c04Item{Name: fmt.Sprintf("n%d", i), K: i}))
+		}
+		coll = s
 	case "structsTag":
 		s := []c04Item{}
 		for i := 0; i < n; i++ {
@@ -145,7 +165,7 @@ func c04Coll(kind string, n int) (coll any, present bool, itemPath string, items
 	return
 }
 
-var c04Kinds = []string{"anys", "anysnil", "ptrsnil", "ints", "int32s", "strings", "bools", "array", "maps", "structs", "structsTag", "ptrs", "nilslice", "nilvalue", "missing"}
+var c04Kinds = []string{"anys", "anysnil", "ptrsnil", "ints", "int32s", "strings", "bools", "array", "maps", "structs", "structsTag", "structsWhole", "ptrslice", "ptrarray", "ptrs", "nilslice", "nilvalue", "missing"}
 
 type c04Case struct {
 	Coll  string `json:"coll"`
@@ -566,7 +586,7 @@ func init() {
 	core.Register(&core.Check{
 		ID:    "C04",
 		Level: "exploration",
-		Rule: "every combination of collection kind (15: incl. slices with nil items, slices of any/int/int32/string/bool/map/struct/*struct, array, nil slice, nil value, missing) x length x access path x loop form (incl. the tight and padded spellings of (i, v)) x loop-variable name (fresh / shadows a map key / shadows a root struct field by name / by JSON tag / spelled with non-ASCII letters, digits, _ or $ / named like a function of the expression library) x v-else (none/adjacent/after whitespace) x looped element (plain, per-item v-if keeping some / no items, bindings, <template>) x root data (map/struct/*struct) x printing position ({{ }}, expression); plus nested loops; plus a body part: 23 ways a loop body can consume the item (text, deep text, interpolated/bound attribute, :class, :style, v-text, v-html, <template v-html>, v-show, inner v-if/v-else, <template :var>, include with bound / interpolated prop, slot content used once / twice, prop-less include, v-slot template without props, include without content, inner v-for, filters, pre) x 1..3 items x loop form x looped element x entry point, with the oracle: instance i shows item i and no other item and equals the single instance of a loop over [item i] alone, and the outer variables named like the loop variables have their outer values before and after the loop. " +
+		Rule: "every combination of collection kind (18: incl. slices with nil items, slices of any/int/int32/string/bool/map/struct (fields and the whole item printed)/*struct, array, pointer to slice / array, nil slice, nil value, missing) x length x access path x loop form (incl. the tight and padded spellings of (i, v)) x loop-variable name (fresh / shadows a map key / shadows a root struct field by name / by JSON tag / spelled with non-ASCII letters, digits, _ or $ / named like a function of the expression library) x v-else (none/adjacent/after whitespace) x looped element (plain, per-item v-if keeping some / no items, bindings, <template>) x root data (map/struct/*struct) x printing position ({{ }}, expression); plus nested loops; plus a body part: 23 ways a loop body can consume the item (text, deep text, interpolated/bound attribute, :class, :style, v-text, v-html, <template v-html>, v-show, inner v-if/v-else, <template :var>, include with bound / interpolated prop, slot content used once / twice, prop-less include, v-slot template without props, include without content, inner v-for, filters, pre) x 1..3 items x loop form x looped element x entry point, with the oracle: instance i shows item i and no other item and equals the single instance of a loop over [item i] alone, and the outer variables named like the loop variables have their outer values before and after the loop. " +
 			"oracle: reference interpreter gives the instance list, for-else presence and the value of the loop variable's name before and after the loop. non-trivial = at least one item",
 		Bounds:      map[string]string{"quick": "lengths 0..2 in the full product, lengths up to 33 for 4 collection kinds, nesting depth 2", "thorough": "lengths 0..3, nesting depth 2"},
 		Assumptions: []string{"iteration over maps is C10's subject, not enumerated here"},
